@@ -28,7 +28,7 @@ mut=$(cargo test --offline --test seeded_demo_x 2>&1 | grep -E "^test result" | 
 echo "  demo with patch    : $mut"
 rm -f $DEMO
 git checkout -q -- .
-OUT=/verif/seeded/$PROP-$NAME
+OUT=/verif/seeded/$PROP-${SEED_TAG:-}$NAME
 mkdir -p "$OUT"
 cp "$SD/patch.diff" "$OUT/patch.diff"; cp "$SD/demo.rs" "$OUT/demo.rs"; cp "$SD/meta.json" "$OUT/meta.json" 2>/dev/null
 # run checks against /repo
